@@ -510,6 +510,9 @@ func (e *env) runHistory(h history) {
 	report := func(j int, st step, f *failure) {
 		if f.inconc {
 			r.Inconclusive(fmt.Sprintf("%s on %s after %s", f.what, h.Transport, st.Class))
+			// not a verdict, but leave something to look at in the log
+			fmt.Printf("TIMEOUT-DIAG history=%d step=%d transport=%s pending_out=%d server_returned=%v\n%s\n", h.Index, j, h.Transport,
+				c.PendingOut(), c.ServerReturned(), wire.Goroutines("vgirpc."))
 			return
 		}
 		wit := f.wit
@@ -621,8 +624,16 @@ func main() {
 		}
 		wg.Wait()
 	}
-	run(nNative, workers, func(int) string { return "pipe" }, 0)
-	run(nBridged, bworkers, func(i int) string { return []string{"iopipe", "unix", "tcp"}[i%3] }, 1_000_000)
+	only := os.Getenv("C02_ONLY") // development aid: restrict the transports
+	if only == "" || only == "pipe" {
+		run(nNative, workers, func(int) string { return "pipe" }, 0)
+	}
+	run(nBridged, bworkers, func(i int) string {
+		if only != "" && only != "pipe" {
+			return only
+		}
+		return []string{"iopipe", "unix", "tcp"}[i%3]
+	}, 1_000_000)
 	for _, l := range e.listeners {
 		l.stop(r)
 	}
